@@ -117,6 +117,29 @@ def impl(case):
             p = optimal_path(G, start=s, stop=t, method=q['method'])
             qs.append({'sites': [[int(x) for x in v] for v in p.sites], 'energy': [float(e) for e in p.energy],
                        'total': float(p.total_energy), 'start': [int(x) for x in p.start_site], 'stop': [int(x) for x in p.stop_site]})
+            # the n-best entry point: its first path is the optimal path under the same criterion
+            # (its search for a second, sufficiently different path enumerates simple paths and may take practically forever on a grid
+            #  where none exists: that is not our concern, so the call is given 1.5 s and skipped beyond)
+            from gemdat.path import optimal_n_paths
+            import signal
+
+            class _Timeout(Exception):
+                pass
+
+            def _on_alarm(_sig, _frm):
+                raise _Timeout()
+            old_handler = signal.signal(signal.SIGALRM, _on_alarm)
+            signal.setitimer(signal.ITIMER_REAL, 1.5)
+            try:
+                np_ = optimal_n_paths(G, start=s, stop=t, n_paths=2, method=q['method'])
+                qs[-1]['npaths'] = [[[int(x) for x in v] for v in pp.sites] for pp in np_]
+            except nx.NetworkXNoPath:
+                qs[-1]['npaths'] = None
+            except _Timeout:
+                qs[-1]['npaths_timeout'] = True
+            finally:
+                signal.setitimer(signal.ITIMER_REAL, 0)
+                signal.signal(signal.SIGALRM, old_handler)
         except nx.NetworkXNoPath:
             qs.append({'nopath': True})
     out['queries'] = qs
@@ -240,6 +263,11 @@ def oracle(case, out):
                 fs.append((MISSING[0], MISSING[1] + f'no path reported although the voxels are connected through corner neighbours {where}'))
             continue
         p = [_idx(dims, v) for v in r['sites']]
+        if 'npaths' in r and s != t:
+            if not r['npaths'] or r['npaths'][0] != r['sites']:
+                fs.append(('path/n-paths-first-not-optimal', f'{q["method"]}: the first of optimal_n_paths is {r["npaths"][0] if r["npaths"] else None}, the optimal path is {r["sites"]} {where}'))
+            elif any([_idx(dims, v) for v in pp][0] != s or [_idx(dims, v) for v in pp][-1] != t for pp in r['npaths']):
+                fs.append(('path/endpoints', f'{q["method"]}: a path of optimal_n_paths does not connect the requested voxels'))
         if p[0] != s or p[-1] != t:
             fs.append(('path/endpoints', f'{q["method"]}: path does not start/end at the requested voxels'))
             continue
